@@ -1,7 +1,7 @@
 (* P_Types.v — theorems about the types-layer model M_Types.v, for every width,
    every operand length and every assignment of the symbols. *)
 From Coq Require Import List Bool NArith ZArith Arith Lia.
-From QV Require Import Bits Bexp BexpTT M_Codec P_Codec M_Types.
+From QV Require Import Bits Bexp BexpTT M_Codec P_Codec Generated M_Types.
 Import ListNotations.
 Local Open Scope N_scope.
 
@@ -1242,17 +1242,15 @@ Proof.
   - intros rho. rewrite crop_bv, fill_bv, V. reflexivity.
 Qed.
 
-(* QintImp.mul on two Qint operands of any widths wl, wr: the product modulo the
-   width of the result type, EXCEPT when both operands are constants and the
-   left one is even (see qint_mul_both_const_refuted) *)
-Theorem qint_mul_partial tl_ tr_ wl wr :
+(* QintImp.mul on two Qint operands of ANY widths wl, wr, symbolic or constant:
+   the product modulo the width of the result type *)
+Theorem qint_mul_spec tl_ tr_ wl wr :
   good tl_ wl -> good tr_ wr -> (0 < wl)%nat -> (0 < wr)%nat ->
-  is_const tl_ && is_const tr_ && N.even (const_bits_val (snd tl_)) = false ->
   let s := mul_sizing (Nat.max wl wr + Nat.max wl wr) in
   has_val (qint_mul tl_ tr_) (TQint s) s
           (fun rho => (bv rho (snd tl_) * bv rho (snd tr_)) mod p2 s).
 Proof.
-  intros G1 G2 Hwl Hwr Hguard s. pose proof G1 as [T1 _]. pose proof G2 as [T2 _].
+  intros G1 G2 Hwl Hwr s. pose proof G1 as [T1 _]. pose proof G2 as [T2 _].
   unfold qint_mul, guard2. rewrite T1, T2. cbn [is_qtype andb].
   destruct (mul_operands_spec tl_ tr_ wl wr G1 G2) as (tl & tr & E & [Tl Ll] & [Tr Lr] & (Cl & Vl & Kl) & (Cr & Vr & Kr)).
   rewrite E. set (w := Nat.max wl wr) in *. fold s.
@@ -1281,14 +1279,11 @@ Proof.
     intros rho. rewrite Vr', N.mod_mod by apply p2_nz. f_equal.
     rewrite <- (is_const_bv rho (snd tc)) by exact Cc. apply Hprod. }
   destruct (is_const tl) eqn:Ctl; [|destruct (is_const tr) eqn:Ctr]; cbn [orb].
-  - (* the left operand is the constant *)
+  - (* the left operand is a constant: it is the multiplier, whatever the right one is *)
     rewrite Tl. destruct (snd tl) as [|c0 cb] eqn:Es; [cbn [length] in Ll; lia|]. cbv iota. rewrite <- Es in *.
     destruct (N.even (const_bits_val (snd tl))) eqn:Ev; [|exact Harr].
-    destruct (is_const tr) eqn:Ctr.
-    + (* both constant and the left one even: excluded by the guard *)
-      exfalso. rewrite <- Cl, <- Cr, <- Kl, Ev in Hguard. discriminate.
-    + apply (Hshort tr tl); [split; assumption|split; assumption|exact Ctl|].
-      intros rho. rewrite Vl, Vr. apply N.mul_comm.
+    apply (Hshort tr tl); [split; assumption|split; assumption|exact Ctl|].
+    intros rho. rewrite Vl, Vr. apply N.mul_comm.
   - (* only the right operand is constant *)
     rewrite Tr. destruct (snd tr) as [|c0 cb] eqn:Es; [cbn [length] in Lr; lia|]. cbv iota. rewrite <- Es in *.
     destruct (N.even (const_bits_val (snd tr))) eqn:Ev; [|exact Harr].
@@ -1297,26 +1292,12 @@ Proof.
   - exact Harr.
 Qed.
 
-(* the same for the common case of at least one non-constant operand *)
-Corollary qint_mul_spec tl_ tr_ wl wr :
-  good tl_ wl -> good tr_ wr -> (0 < wl)%nat -> (0 < wr)%nat ->
-  is_const tl_ && is_const tr_ = false ->
-  let s := mul_sizing (Nat.max wl wr + Nat.max wl wr) in
-  has_val (qint_mul tl_ tr_) (TQint s) s
-          (fun rho => (bv rho (snd tl_) * bv rho (snd tr_)) mod p2 s).
-Proof. intros G1 G2 H1 H2 Hc. apply qint_mul_partial; try assumption. now rewrite Hc. Qed.
-
-(* SUSPECTED DEFECT: with two constant operands and an even left one, t_num and
-   t_const are both the left operand and the result is left * left *)
-Example qint_mul_both_const_refuted :
-  exists tl tr r, good tl 4 /\ good tr 4 /\ qint_mul tl tr = Some r
-    /\ bv (fun _ => false) (snd r) <> (bv (fun _ => false) (snd tl) * bv (fun _ => false) (snd tr)) mod p2 8
-    /\ bv (fun _ => false) (snd r) = (bv (fun _ => false) (snd tl) * bv (fun _ => false) (snd tl)) mod p2 8.
-Proof.
-  exists (qint_const_e 4 12), (qint_const_e 4 6). eexists.
-  split; [split; reflexivity|]. split; [split; reflexivity|]. split; [vm_compute; reflexivity|].
-  split; vm_compute; congruence.
-Qed.
+(* the case the unfixed code got wrong (constant * constant with an even left
+   operand gave left * left): 12 * 6 = 72 *)
+Example qint_mul_both_const_ex :
+  exists r, qint_mul (qint_const_e 4 12) (qint_const_e 4 6) = Some r
+    /\ fst r = TQint 8 /\ bv (fun _ => false) (snd r) = 72.
+Proof. eexists. split; [vm_compute; reflexivity|]. split; vm_compute; reflexivity. Qed.
 
 (* the result width never loses a product bit below 16 bits: no wrap when 2w <= 16 *)
 Lemma mul_sizing_ge k : (k <= 16)%nat -> (k <= mul_sizing k)%nat.
@@ -1367,13 +1348,85 @@ Proof. unfold qrepr. now rewrite map_app, map_rev, <- skipn_map, <- firstn_map. 
 Lemma fxv_lt rho i l : fxv rho i l < p2 (length l).
 Proof. unfold fxv. rewrite <- (qrepr_length i l). apply bv_lt. Qed.
 
-(* QfixedImp.add, two operands OF THE SAME Qfixed type *)
-Theorem qfixed_add_spec i f l r : length l = (i + f)%nat -> length r = (i + f)%nat ->
-  exists res, qfixed_add (TQfixed i f, l) (TQfixed i f, r) = Some (TQfixed i f, res)
+(* ---- _align ---- *)
+Definition widen_bits (it ft i f : nat) (l : list bexp) : list bexp :=
+  (firstn it l ++ repeat bfalse (i - it)) ++ (skipn it l ++ repeat bfalse (f - ft)).
+
+Lemma widen_eq it ft i f l : widen i f (TQfixed it ft, l) = (TQfixed i f, widen_bits it ft i f l).
+Proof. reflexivity. Qed.
+
+Lemma widen_bits_id i f l : widen_bits i f i f l = l.
+Proof. unfold widen_bits. rewrite !Nat.sub_diag. cbn [repeat]. rewrite !app_nil_r. apply firstn_skipn. Qed.
+
+Lemma widen_bits_length it ft i f l : length l = (it + ft)%nat -> (it <= i)%nat -> (ft <= f)%nat ->
+  length (widen_bits it ft i f l) = (i + f)%nat.
+Proof.
+  intros Hl Hi Hf. unfold widen_bits. rewrite !app_length, !repeat_length, firstn_length, skipn_length. lia.
+Qed.
+
+(* the aligned list denotes the same number at the common scale *)
+Lemma widen_bits_fxv rho it ft i f l : length l = (it + ft)%nat -> (it <= i)%nat -> (ft <= f)%nat ->
+  fxv rho i (widen_bits it ft i f l) = fxv rho it l * p2 (f - ft).
+Proof.
+  intros Hl Hi Hf. unfold fxv, widen_bits, qrepr.
+  assert (HA : length (firstn it l ++ repeat bfalse (i - it)) = i)
+    by (rewrite app_length, repeat_length, firstn_length; lia).
+  rewrite (skipn_app_exact _ _ i HA), (firstn_app_exact _ _ i HA).
+  rewrite rev_app_distr, rev_repeat.
+  rewrite <- !app_assoc. rewrite bv_app, bv_false, repeat_length.
+  rewrite (app_assoc (rev (skipn it l))). rewrite (bv_app rho (rev (skipn it l) ++ firstn it l)), bv_false. lia.
+Qed.
+
+(* the common type exists: the operands have the same type, or the larger shape is shipped *)
+Definition align_ok (i1 f1 i2 f2 : nat) : Prop :=
+  (i1 = i2 /\ f1 = f2) \/ is_shipped_qfixed (Nat.max i1 i2) (Nat.max f1 f2) = true.
+
+Lemma qfixed_align_eq i1 f1 i2 f2 l r : align_ok i1 f1 i2 f2 ->
+  qfixed_align (TQfixed i1 f1, l) (TQfixed i2 f2, r)
+  = Some ((TQfixed (Nat.max i1 i2) (Nat.max f1 f2), widen_bits i1 f1 (Nat.max i1 i2) (Nat.max f1 f2) l),
+          (TQfixed (Nat.max i1 i2) (Nat.max f1 f2), widen_bits i2 f2 (Nat.max i1 i2) (Nat.max f1 f2) r)).
+Proof.
+  intros H. unfold qfixed_align. cbn [fst].
+  destruct (Nat.eqb_spec i1 i2) as [Ei|Ei]; [destruct (Nat.eqb_spec f1 f2) as [Ef|Ef]|]; cbn [andb].
+  - subst. rewrite !Nat.max_id, !widen_bits_id. reflexivity.
+  - destruct H as [[_ H]|H]; [congruence|]. rewrite H. reflexivity.
+  - destruct H as [[H _]|H]; [congruence|]. rewrite H. reflexivity.
+Qed.
+
+(* a method applied to operands of two Qfixed types is the method applied to the aligned operands *)
+Lemma with_align_eq {A} i1 f1 i2 f2 l r (k : texp -> texp -> option A) : align_ok i1 f1 i2 f2 ->
+  with_align (TQfixed i1 f1, l) (TQfixed i2 f2, r) k
+  = k (TQfixed (Nat.max i1 i2) (Nat.max f1 f2), widen_bits i1 f1 (Nat.max i1 i2) (Nat.max f1 f2) l)
+      (TQfixed (Nat.max i1 i2) (Nat.max f1 f2), widen_bits i2 f2 (Nat.max i1 i2) (Nat.max f1 f2) r).
+Proof. intros H. unfold with_align. rewrite (qfixed_align_eq _ _ _ _ _ _ H). reflexivity. Qed.
+
+Lemma with_align_same {A} i f l r (k : texp -> texp -> option A) :
+  with_align (TQfixed i f, l) (TQfixed i f, r) k = k (TQfixed i f, l) (TQfixed i f, r).
+Proof.
+  rewrite with_align_eq by (left; split; reflexivity). now rewrite !Nat.max_id, !widen_bits_id.
+Qed.
+
+(* every pair of shipped Qfixed types has its common type among the shipped ones
+   (checked on Generated.shipped_qfixed, i.e. on the QFIXED_TYPES of this run) *)
+Theorem shipped_qfixed_closed :
+  forallb (fun a => forallb (fun b => is_shipped_qfixed (Nat.max (fst a) (fst b)) (Nat.max (snd a) (snd b)))
+                            shipped_qfixed) shipped_qfixed = true.
+Proof. vm_compute. reflexivity. Qed.
+
+Corollary shipped_align_ok i1 f1 i2 f2 :
+  In (i1, f1) shipped_qfixed -> In (i2, f2) shipped_qfixed -> align_ok i1 f1 i2 f2.
+Proof.
+  intros H1 H2. right. pose proof shipped_qfixed_closed as H. rewrite forallb_forall in H.
+  specialize (H _ H1). rewrite forallb_forall in H. exact (H _ H2).
+Qed.
+
+(* QfixedImp.add after the alignment: two operands of the same type *)
+Lemma qfixed_add_core_spec i f l r : length l = (i + f)%nat -> length r = (i + f)%nat ->
+  exists res, qfixed_add_core (TQfixed i f, l) (TQfixed i f, r) = Some (TQfixed i f, res)
     /\ length res = (i + f)%nat
     /\ forall rho, fxv rho i res = (fxv rho i l + fxv rho i r) mod p2 (i + f).
 Proof.
-  intros Hl Hr. unfold qfixed_add. cbn [fst snd is_qfixed andb].
+  intros Hl Hr. unfold qfixed_add_core.
   unfold fill_pair. cbn [fst snd]. rewrite Hl, Hr, Nat.ltb_irrefl. cbn [fst snd].
   rewrite !to_qint_repr_eq. cbn [obind].
   assert (Wl : wf_te (TQfixed i f, qrepr i l)) by (unfold wf_te; cbn [fst snd bit_size ty_size]; now rewrite qrepr_length).
@@ -1386,23 +1439,53 @@ Proof.
   - intros rho. unfold fxv. rewrite (qrepr_unrepr i f) by exact Ls. apply Vs.
 Qed.
 
+(* QfixedImp.add, two operands of the same Qfixed type *)
+Theorem qfixed_add_spec i f l r : length l = (i + f)%nat -> length r = (i + f)%nat ->
+  exists res, qfixed_add (TQfixed i f, l) (TQfixed i f, r) = Some (TQfixed i f, res)
+    /\ length res = (i + f)%nat
+    /\ forall rho, fxv rho i res = (fxv rho i l + fxv rho i r) mod p2 (i + f).
+Proof.
+  intros Hl Hr. unfold qfixed_add. cbn [fst is_qfixed andb]. rewrite with_align_same.
+  now apply qfixed_add_core_spec.
+Qed.
+
+(* QfixedImp.add, operands of ANY two Qfixed types with a common type: the sum of
+   the two values at the common scale 2^max(f1,f2), modulo the common width *)
+Theorem qfixed_add_mixed_spec i1 f1 i2 f2 l r :
+  align_ok i1 f1 i2 f2 -> length l = (i1 + f1)%nat -> length r = (i2 + f2)%nat ->
+  let i := Nat.max i1 i2 in let f := Nat.max f1 f2 in
+  exists res, qfixed_add (TQfixed i1 f1, l) (TQfixed i2 f2, r) = Some (TQfixed i f, res)
+    /\ length res = (i + f)%nat
+    /\ forall rho, fxv rho i res
+         = (fxv rho i1 l * p2 (f - f1) + fxv rho i2 r * p2 (f - f2)) mod p2 (i + f).
+Proof.
+  intros Hok Hl Hr i f. unfold qfixed_add. cbn [fst is_qfixed andb]. rewrite (with_align_eq _ _ _ _ _ _ _ Hok).
+  fold i f.
+  assert (L1 := widen_bits_length i1 f1 i f l Hl ltac:(lia) ltac:(lia)).
+  assert (L2 := widen_bits_length i2 f2 i f r Hr ltac:(lia) ltac:(lia)).
+  destruct (qfixed_add_core_spec i f _ _ L1 L2) as (res & Hres & Lres & Vres).
+  exists res. split; [exact Hres|]. split; [exact Lres|]. intros rho.
+  rewrite Vres, !widen_bits_fxv by (try assumption; lia). reflexivity.
+Qed.
+
 Lemma fxv_not rho i l : fxv rho i (map BNot l) = p2 (length l) - 1 - fxv rho i l.
 Proof.
   unfold fxv. rewrite qrepr_map. pose proof (bv_not_add rho (qrepr i l)) as H.
   rewrite qrepr_length in H. lia.
 Qed.
 
-(* QfixedImp.sub, same type *)
-Theorem qfixed_sub_spec i f l r : length l = (i + f)%nat -> length r = (i + f)%nat ->
-  exists res, qfixed_sub (TQfixed i f) (TQfixed i f, l) (TQfixed i f, r) = Some (TQfixed i f, res)
+(* QfixedImp.sub looked up on a class cls no wider than the operands, same operand type *)
+Theorem qfixed_sub_spec cls i f l r : (bit_size cls <= i + f)%nat ->
+  length l = (i + f)%nat -> length r = (i + f)%nat ->
+  exists res, qfixed_sub cls (TQfixed i f, l) (TQfixed i f, r) = Some (TQfixed i f, res)
     /\ length res = (i + f)%nat
     /\ forall rho, fxv rho i res = (fxv rho i l + p2 (i + f) - fxv rho i r) mod p2 (i + f).
 Proof.
-  intros Hl Hr. unfold qfixed_sub, guard2. cbn [fst snd is_qtype andb].
-  assert (F1 : fill (TQfixed i f) (TQfixed i f, l) = (TQfixed i f, l)).
-  { unfold fill. cbn [fst snd bit_size ty_size]. rewrite Hl, Nat.leb_refl. reflexivity. }
-  assert (F2 : fill (TQfixed i f) (TQfixed i f, r) = (TQfixed i f, r)).
-  { unfold fill. cbn [fst snd bit_size ty_size]. rewrite Hr, Nat.leb_refl. reflexivity. }
+  intros Hc Hl Hr. unfold qfixed_sub, guard2. cbn [fst snd is_qtype andb]. rewrite with_align_same.
+  assert (F1 : fill cls (TQfixed i f, l) = (TQfixed i f, l)).
+  { unfold fill. cbn [fst snd]. rewrite Hl. apply Nat.leb_le in Hc. now rewrite Hc. }
+  assert (F2 : fill cls (TQfixed i f, r) = (TQfixed i f, r)).
+  { unfold fill. cbn [fst snd]. rewrite Hr. apply Nat.leb_le in Hc. now rewrite Hc. }
   rewrite F1, F2. change (bitwise_not (TQfixed i f, l)) with (TQfixed i f, map BNot l).
   destruct (qfixed_add_spec i f (map BNot l) r ltac:(now rewrite map_length) Hr) as (su & Hsu & Lsu & Vsu).
   rewrite Hsu. cbn [obind]. unfold bitwise_not. cbn [fst snd].
@@ -1410,6 +1493,26 @@ Proof.
   intros rho. rewrite fxv_not, Vsu, fxv_not, Lsu, Hl.
   pose proof (fxv_lt rho i l) as Ba. pose proof (fxv_lt rho i r) as Bb. rewrite Hl in Ba. rewrite Hr in Bb.
   now apply sub_arith.
+Qed.
+
+(* QfixedImp.sub as dispatched (cls = the left operand's type), ANY two Qfixed types *)
+Theorem qfixed_sub_mixed_spec i1 f1 i2 f2 l r :
+  align_ok i1 f1 i2 f2 -> length l = (i1 + f1)%nat -> length r = (i2 + f2)%nat ->
+  let i := Nat.max i1 i2 in let f := Nat.max f1 f2 in
+  exists res, qfixed_sub (TQfixed i1 f1) (TQfixed i1 f1, l) (TQfixed i2 f2, r) = Some (TQfixed i f, res)
+    /\ length res = (i + f)%nat
+    /\ forall rho, fxv rho i res
+         = (fxv rho i1 l * p2 (f - f1) + p2 (i + f) - fxv rho i2 r * p2 (f - f2)) mod p2 (i + f).
+Proof.
+  intros Hok Hl Hr i f.
+  assert (L1 := widen_bits_length i1 f1 i f l Hl ltac:(lia) ltac:(lia)).
+  assert (L2 := widen_bits_length i2 f2 i f r Hr ltac:(lia) ltac:(lia)).
+  assert (Hc : (bit_size (TQfixed i1 f1) <= i + f)%nat) by (cbn [bit_size ty_size]; lia).
+  destruct (qfixed_sub_spec (TQfixed i1 f1) i f _ _ Hc L1 L2) as (res & Hres & Lres & Vres).
+  exists res. split; [|split; [exact Lres|]].
+  - rewrite <- Hres. unfold qfixed_sub, guard2. cbn [fst is_qtype andb].
+    rewrite (with_align_eq _ _ _ _ _ _ _ Hok), with_align_same. reflexivity.
+  - intros rho. rewrite Vres, !widen_bits_fxv by (try assumption; lia). reflexivity.
 Qed.
 
 (* equal-length bit lists are equal iff their values are *)
@@ -1448,42 +1551,18 @@ Proof.
   rewrite (eqb_qrepr i f) by (rewrite map_length; assumption). split; reflexivity.
 Qed.
 
-(* QfixedImp.gt: when the left representation is at least as long as the right
-   one, the loop and its tails are those of QintImp.gt *)
-Lemma qfixed_gt_as_qint tl tr lv rv :
-  to_qint_repr tl = Some lv -> to_qint_repr tr = Some rv -> (length rv <= length lv)%nat ->
-  qfixed_gt_bits tl tr = qint_gt_bits lv rv.
-Proof.
-  intros Hl Hr Hlen. unfold qfixed_gt_bits, qint_gt_bits. rewrite Hl, Hr. cbn [obind].
-  destruct (gt_loop lv rv); [|reflexivity]. cbn [obind].
-  rewrite (skipn_all2 rv) by exact Hlen. reflexivity.
-Qed.
-
 (* a comparison method returns (bool, e) with e meaning f *)
 Definition cmp_val (x : option texp) (f : (nat -> bool) -> bool) : Prop :=
   exists e, x = Some (TBool, [e]) /\ forall rho, beval rho e = f rho.
 
-(* comparisons of two Qfixed values with the SAME number of fractional bits and
-   at least as many integer bits on the left (in particular: the same type) *)
-Theorem qfixed_cmp_partial i1 i2 f l r :
-  (i2 <= i1)%nat -> length l = (i1 + f)%nat -> length r = (i2 + f)%nat -> (0 < i2 + f)%nat ->
-  let tl := (TQfixed i1 f, l) in let tr := (TQfixed i2 f, r) in
-  cmp_val (qfixed_gt tl tr) (fun rho => fxv rho i2 r <? fxv rho i1 l)
-  /\ cmp_val (qfixed_lte tl tr) (fun rho => fxv rho i1 l <=? fxv rho i2 r).
+(* the loop of QfixedImp.gt on two representations of equal length is QintImp.gt's *)
+Lemma qfixed_gt_core_as_qint i f l r : length l = length r ->
+  qfixed_gt_core (TQfixed i f, l) (TQfixed i f, r) = qint_gt_bits (qrepr i l) (qrepr i r).
 Proof.
-  intros Hi Hl Hr Hpos tl tr.
-  assert (Hg : qfixed_gt_bits tl tr = qint_gt_bits (qrepr i1 l) (qrepr i2 r)).
-  { apply qfixed_gt_as_qint; try reflexivity. rewrite !qrepr_length. lia. }
-  assert (N1 : qrepr i1 l <> []) by (intros E; apply (f_equal (@length _)) in E; rewrite qrepr_length in E; cbn in E; lia).
-  assert (N2 : qrepr i2 r <> []) by (intros E; apply (f_equal (@length _)) in E; rewrite qrepr_length in E; cbn in E; lia).
-  destruct (qint_gt_bits_total _ _ N1 N2) as [g Hgt].
-  pose proof (fun rho => qint_gt_bits_spec rho _ _ g Hgt) as Vg.
-  unfold cmp_val, qfixed_gt, qfixed_lte, qfixed_lte_bits. rewrite Hg, Hgt. cbn [obind as_bool option_map].
-  split; eexists; (split; [reflexivity|]); intros rho.
-  - apply Vg.
-  - rewrite beval_not, Vg. unfold fxv.
-    destruct (N.ltb_spec (bv rho (qrepr i2 r)) (bv rho (qrepr i1 l)));
-      destruct (N.leb_spec (bv rho (qrepr i1 l)) (bv rho (qrepr i2 r))); cbn [negb]; try reflexivity; lia.
+  intros Hlen. unfold qfixed_gt_core, qint_gt_bits. rewrite !to_qint_repr_eq. cbn [obind].
+  destruct (gt_loop (qrepr i l) (qrepr i r)); [|reflexivity]. cbn [obind].
+  rewrite (skipn_all2 (qrepr i r)) by (rewrite !qrepr_length; lia).
+  rewrite (skipn_all2 (qrepr i l)) by (rewrite !qrepr_length; lia). reflexivity.
 Qed.
 
 (* all six comparisons, two operands of the same Qfixed type *)
@@ -1498,26 +1577,92 @@ Theorem qfixed_cmp_spec i f l r :
   /\ cmp_val (qfixed_gte tl tr) (fun rho => fxv rho i r <=? fxv rho i l).
 Proof.
   intros Hl Hr Hpos tl tr.
-  destruct (qfixed_cmp_partial i i f l r (le_n i) Hl Hr Hpos) as ((g & Hg & Vg) & Hlte).
-  fold tl tr in Hg, Hlte.
+  assert (N1 : qrepr i l <> []) by (intros E; apply (f_equal (@length _)) in E; rewrite qrepr_length in E; cbn in E; lia).
+  assert (N2 : qrepr i r <> []) by (intros E; apply (f_equal (@length _)) in E; rewrite qrepr_length in E; cbn in E; lia).
+  destruct (qint_gt_bits_total _ _ N1 N2) as [g Hgt].
+  pose proof (fun rho => qint_gt_bits_spec rho _ _ g Hgt) as Vg.
+  assert (Hgb : qfixed_gt_bits tl tr = Some g).
+  { unfold qfixed_gt_bits, tl, tr. cbn [fst is_qfixed andb]. rewrite with_align_same.
+    rewrite qfixed_gt_core_as_qint by congruence. exact Hgt. }
+  assert (Heb : qfixed_eq_bit tl tr = Some (eq_zip l r btrue)).
+  { unfold qfixed_eq_bit, tl, tr. now rewrite with_align_same. }
   pose proof (fun rho => proj1 (qfixed_eq_spec rho i f l r Hl Hr)) as Ve.
   pose proof (fun rho => proj2 (qfixed_eq_spec rho i f l r Hl Hr)) as Vn.
-  assert (Hgb : qfixed_gt_bits tl tr = Some g).
-  { unfold qfixed_gt, as_bool in Hg. destruct (qfixed_gt_bits tl tr); cbn [option_map] in Hg; congruence. }
-  assert (Vlt : forall rho, beval rho (BAnd [BNot g; BNot (qfixed_eq_bit tl tr)]) = (fxv rho i l <? fxv rho i r)).
-  { intros rho. rewrite beval_and2, !beval_not, Vg. unfold qfixed_eq_bit, tl, tr. cbn [snd]. rewrite Ve.
-    destruct (N.ltb_spec (fxv rho i r) (fxv rho i l)); destruct (N.eqb_spec (fxv rho i l) (fxv rho i r));
-      destruct (N.ltb_spec (fxv rho i l) (fxv rho i r)); cbn [negb andb]; try reflexivity; lia. }
-  split; [|split; [|split; [|split; [|split; [exact Hlte|]]]]].
-  - eexists. split; [reflexivity|exact Ve].
-  - eexists. split; [reflexivity|exact Vn].
-  - exists g. split; [exact Hg|exact Vg].
-  - unfold cmp_val, qfixed_lt, qfixed_lt_bits. rewrite Hgb. cbn [obind as_bool option_map].
-    eexists. split; [reflexivity|exact Vlt].
-  - unfold cmp_val, qfixed_gte, qfixed_gte_bits, qfixed_lt_bits. rewrite Hgb. cbn [obind as_bool option_map].
-    eexists. split; [reflexivity|]. intros rho. rewrite beval_not, Vlt.
+  assert (Vlt : forall rho, beval rho (BAnd [BNot g; BNot (eq_zip l r btrue)]) = (fxv rho i l <? fxv rho i r)).
+  { intros rho. rewrite beval_and2, !beval_not, Vg, Ve. unfold fxv.
+    destruct (N.ltb_spec (bv rho (qrepr i r)) (bv rho (qrepr i l))); destruct (N.eqb_spec (bv rho (qrepr i l)) (bv rho (qrepr i r)));
+      destruct (N.ltb_spec (bv rho (qrepr i l)) (bv rho (qrepr i r))); cbn [negb andb]; try reflexivity; lia. }
+  unfold cmp_val, qfixed_eq, qfixed_neq, qfixed_gt, qfixed_lt, qfixed_lte, qfixed_gte,
+    qfixed_gte_bits, qfixed_lt_bits, qfixed_lte_bits, guard2.
+  rewrite Hgb, Heb. unfold tl, tr. cbn [fst is_qtype andb obind as_bool option_map].
+  rewrite !with_align_same. unfold zip_eq, zip_neq. cbn [snd].
+  split; [|split; [|split; [|split; [|split]]]]; eexists; (split; [reflexivity|]); intros rho.
+  - apply Ve.
+  - apply Vn.
+  - apply Vg.
+  - apply Vlt.
+  - rewrite beval_not, Vg. unfold fxv.
+    destruct (N.ltb_spec (bv rho (qrepr i r)) (bv rho (qrepr i l)));
+      destruct (N.leb_spec (bv rho (qrepr i l)) (bv rho (qrepr i r))); cbn [negb]; try reflexivity; lia.
+  - rewrite beval_not, Vlt.
     destruct (N.ltb_spec (fxv rho i l) (fxv rho i r)); destruct (N.leb_spec (fxv rho i r) (fxv rho i l));
       cbn [negb]; try reflexivity; lia.
+Qed.
+
+(* the six comparison methods on operands of two Qfixed types are the methods on the aligned operands *)
+Lemma qfixed_cmp_aligned i1 f1 i2 f2 l r : align_ok i1 f1 i2 f2 ->
+  let i := Nat.max i1 i2 in let f := Nat.max f1 f2 in
+  let tl := (TQfixed i1 f1, l) in let tr := (TQfixed i2 f2, r) in
+  let al := (TQfixed i f, widen_bits i1 f1 i f l) in let ar := (TQfixed i f, widen_bits i2 f2 i f r) in
+  qfixed_eq tl tr = qfixed_eq al ar /\ qfixed_neq tl tr = qfixed_neq al ar
+  /\ qfixed_gt tl tr = qfixed_gt al ar /\ qfixed_lt tl tr = qfixed_lt al ar
+  /\ qfixed_lte tl tr = qfixed_lte al ar /\ qfixed_gte tl tr = qfixed_gte al ar.
+Proof.
+  intros Hok i f tl tr al ar.
+  assert (Hg : qfixed_gt_bits tl tr = qfixed_gt_bits al ar).
+  { unfold qfixed_gt_bits, tl, tr, al, ar. cbn [fst is_qfixed andb].
+    now rewrite (with_align_eq _ _ _ _ _ _ _ Hok), with_align_same. }
+  assert (He : qfixed_eq_bit tl tr = qfixed_eq_bit al ar).
+  { unfold qfixed_eq_bit, tl, tr, al, ar. now rewrite (with_align_eq _ _ _ _ _ _ _ Hok), with_align_same. }
+  unfold qfixed_eq, qfixed_neq, qfixed_gt, qfixed_lt, qfixed_lte, qfixed_gte,
+    qfixed_gte_bits, qfixed_lt_bits, qfixed_lte_bits, guard2.
+  rewrite Hg, He. unfold tl, tr, al, ar. cbn [fst is_qtype andb].
+  rewrite !(with_align_eq _ _ _ _ _ _ _ Hok), !with_align_same. repeat split.
+Qed.
+
+(* all six comparisons, operands of ANY two Qfixed types with a common type:
+   the comparison of the two values at the common scale *)
+Theorem qfixed_cmp_mixed_spec i1 f1 i2 f2 l r :
+  align_ok i1 f1 i2 f2 -> length l = (i1 + f1)%nat -> length r = (i2 + f2)%nat ->
+  (0 < Nat.max i1 i2 + Nat.max f1 f2)%nat ->
+  let f := Nat.max f1 f2 in
+  let tl := (TQfixed i1 f1, l) in let tr := (TQfixed i2 f2, r) in
+  let x := fun rho => fxv rho i1 l * p2 (f - f1) in
+  let y := fun rho => fxv rho i2 r * p2 (f - f2) in
+  cmp_val (qfixed_eq tl tr) (fun rho => x rho =? y rho)
+  /\ cmp_val (qfixed_neq tl tr) (fun rho => negb (x rho =? y rho))
+  /\ cmp_val (qfixed_gt tl tr) (fun rho => y rho <? x rho)
+  /\ cmp_val (qfixed_lt tl tr) (fun rho => x rho <? y rho)
+  /\ cmp_val (qfixed_lte tl tr) (fun rho => x rho <=? y rho)
+  /\ cmp_val (qfixed_gte tl tr) (fun rho => y rho <=? x rho).
+Proof.
+  intros Hok Hl Hr Hpos f tl tr x y.
+  set (i := Nat.max i1 i2) in *.
+  assert (L1 := widen_bits_length i1 f1 i f l Hl ltac:(lia) ltac:(lia)).
+  assert (L2 := widen_bits_length i2 f2 i f r Hr ltac:(lia) ltac:(lia)).
+  destruct (qfixed_cmp_aligned i1 f1 i2 f2 l r Hok) as (E1 & E2 & E3 & E4 & E5 & E6).
+  fold i f tl tr in E1, E2, E3, E4, E5, E6. rewrite E1, E2, E3, E4, E5, E6.
+  pose proof (qfixed_cmp_spec i f _ _ L1 L2 Hpos) as H. cbn zeta in H.
+  assert (X : forall rho, fxv rho i (widen_bits i1 f1 i f l) = x rho)
+    by (intros rho; apply widen_bits_fxv; try assumption; lia).
+  assert (Y : forall rho, fxv rho i (widen_bits i2 f2 i f r) = y rho)
+    by (intros rho; apply widen_bits_fxv; try assumption; lia).
+  destruct H as (H1 & H2 & H3 & H4 & H5 & H6).
+  repeat split;
+    match goal with
+    | Hc : cmp_val ?m _ |- cmp_val ?m _ =>
+        destruct Hc as (e & He & Ve); exists e; split; [exact He|]; intros rho; rewrite Ve, X, Y; reflexivity
+    end.
 Qed.
 
 (* repeated addition *)
@@ -1561,6 +1706,37 @@ Theorem qfixed_mul_spec i f l wc cb :
     /\ forall rho, fxv rho i res = (fxv rho i l * const_bits_val cb) mod p2 (i + f).
 Proof.
   intros Hl Hne Hc. unfold qfixed_mul, guard2. cbn [fst snd is_qtype is_qint andb obind].
+  unfold is_const. cbn [snd]. rewrite Hc. cbn [negb].
+  destruct cb as [|c0 cb']; [congruence|]. set (cb := c0 :: cb') in *.
+  destruct (N.eqb_spec (const_bits_val cb) 0) as [E|E].
+  - rewrite qfixed_const_zero. eexists. split; [reflexivity|]. split; [now rewrite map_length, repeat_length|].
+    intros rho. rewrite E, N.mul_0_r, N.mod_0_l by apply p2_nz. unfold fxv.
+    rewrite qrepr_map. unfold bv. rewrite map_beval_const.
+    assert (H : forall k, bits_val (qrepr i (repeat false k)) = 0).
+    { intros k.
+      assert (Hz : forall (z : list bool), (forall b, In b z -> b = false) -> bits_val z = 0).
+      { induction z as [|b z IH]; intros Hb; cbn [bits_val]; [reflexivity|].
+        rewrite (Hb b (or_introl eq_refl)), IH; [reflexivity|]. intros b' Hb'. apply Hb. now right. }
+      apply Hz. intros b Hb. unfold qrepr in Hb.
+      assert (Hin : In b (repeat false k)).
+      { rewrite <- (firstn_skipn i (repeat false k)). apply in_or_app.
+        apply in_app_or in Hb. destruct Hb as [Hb|Hb]; [right; now apply in_rev in Hb|now left]. }
+      now apply repeat_spec in Hin. }
+    apply H.
+  - destruct (iter_add_spec i f l Hl (N.to_nat (const_bits_val cb) - 1) l Hl) as (res & Hres & Lres & Vres).
+    exists res. split; [exact Hres|]. split; [exact Lres|]. intros rho. rewrite Vres. f_equal.
+    replace (N.of_nat (N.to_nat (const_bits_val cb) - 1)) with (const_bits_val cb - 1) by lia. nia.
+Qed.
+
+(* the constant on the LEFT (translate_expression dispatches `3 * a` to the Qfixed type's mul too) *)
+Theorem qfixed_mul_left_spec i f l wc cb :
+  length l = (i + f)%nat -> cb <> [] -> forallb is_const_bit cb = true ->
+  exists res, qfixed_mul (TQfixed i f) (TQint wc, cb) (TQfixed i f, l) = Some (TQfixed i f, res)
+    /\ length res = (i + f)%nat
+    /\ forall rho, fxv rho i res = (fxv rho i l * const_bits_val cb) mod p2 (i + f).
+Proof.
+  intros Hl Hne Hc. unfold qfixed_mul, guard2. cbn [fst snd is_qtype is_qint andb obind].
+  unfold is_const. cbn [snd]. rewrite Hc. cbn [negb].
   destruct cb as [|c0 cb']; [congruence|]. set (cb := c0 :: cb') in *.
   destruct (N.eqb_spec (const_bits_val cb) 0) as [E|E].
   - rewrite qfixed_const_zero. eexists. split; [reflexivity|]. split; [now rewrite map_length, repeat_length|].
@@ -1626,14 +1802,11 @@ Qed.
 (* ================================================================== *)
 (* Qchar, Qbool                                                        *)
 (* ================================================================== *)
+(* Qchar.eq / neq (delegating to QintImp): operands of ANY two lengths, e.g. Qchar == Qint4 *)
 Theorem qchar_eq_spec tl tr : is_qtype (fst tl) = true -> is_qtype (fst tr) = true ->
-  length (snd tl) = length (snd tr) ->
   cmp_val (qchar_eq tl tr) (fun rho => bv rho (snd tl) =? bv rho (snd tr))
   /\ cmp_val (qchar_neq tl tr) (fun rho => negb (bv rho (snd tl) =? bv rho (snd tr))).
-Proof.
-  intros Ql Qr Hlen. unfold cmp_val, qchar_eq, qchar_neq, zip_eq, zip_neq, guard2. rewrite Ql, Qr. cbn [andb].
-  split; eexists; (split; [reflexivity|]); intros rho; now apply zip_eq_bits_spec.
-Qed.
+Proof. exact (qint_eq_spec tl tr). Qed.
 
 Theorem qbool_spec rho tl tr :
   beval rho (snd (qbool_eq tl tr)) = Bool.eqb (beval rho (snd tl)) (beval rho (snd tr))
@@ -1658,69 +1831,42 @@ Proof.
   split; vm_compute; congruence.
 Qed.
 
-(* Qfixed1_2 0.5 + Qfixed2_2 0.0: the left list is zero-extended at the END
-   (the least significant fractional side) and re-read as Qfixed2_2: 2.0 *)
-Example qfixed_add_mixed_refuted :
-  exists tl tr r, fst tl = TQfixed 1 2 /\ fst tr = TQfixed 2 2 /\ wf_te tl /\ wf_te tr
-    /\ qfixed_add tl tr = Some r /\ fst r = TQfixed 2 2
-    /\ fxv rho0 1 (snd tl) = 2 /\ fxv rho0 2 (snd tr) = 0     (* 0.5 and 0.0, scaled by 2^2 *)
-    /\ fxv rho0 2 (snd r) = 8.                                (* 2.0 *)
-Proof.
-  exists (cst (TQfixed 1 2) [false; true; false]), (cst (TQfixed 2 2) [false; false; false; false]).
-  eexists. repeat split; vm_compute; reflexivity.
-Qed.
+(* the cases the unfixed code got wrong, now right (operands of different Qfixed types
+   are aligned first; Qchar compares as an unsigned integer of any width) *)
+(* Qfixed1_2 0.5 + Qfixed2_2 0.0 = 0.5 (was 2.0);  Qfixed2_2 2.0 - Qfixed1_2 0.5 = 1.5 (was 0.0) *)
+Example qfixed_add_sub_mixed_ex :
+  let a := cst (TQfixed 1 2) [false; true; false] in          (* 0.5 *)
+  let z := cst (TQfixed 2 2) [false; false; false; false] in  (* 0.0 *)
+  let b := cst (TQfixed 2 2) [false; true; false; false] in   (* 2.0 *)
+  option_map (fun r => (fst r, fxv rho0 2 (snd r))) (qfixed_add a z) = Some (TQfixed 2 2, 2)
+  /\ option_map (fun r => (fst r, fxv rho0 2 (snd r))) (qfixed_sub (TQfixed 2 2) b a) = Some (TQfixed 2 2, 6).
+Proof. split; vm_compute; reflexivity. Qed.
 
-Example qfixed_sub_mixed_refuted :
-  exists tl tr r, fst tl = TQfixed 2 2 /\ fst tr = TQfixed 1 2 /\ wf_te tl /\ wf_te tr
-    /\ qfixed_sub (TQfixed 2 2) tl tr = Some r /\ fst r = TQfixed 2 2
-    /\ fxv rho0 2 (snd tl) = 8 /\ fxv rho0 1 (snd tr) = 2     (* 2.0 - 0.5 *)
-    /\ fxv rho0 2 (snd r) = 0.                                (* 0.0, not 1.5 *)
-Proof.
-  exists (cst (TQfixed 2 2) [false; true; false; false]), (cst (TQfixed 1 2) [false; true; false]).
-  eexists. repeat split; vm_compute; reflexivity.
-Qed.
+(* 0.5 (Qfixed1_2) == 2.0 (Qfixed2_2) is false (was true); 0.0 > 2.0 is false (was true);
+   0.75 (Qfixed1_2) > 0.5 (Qfixed1_3) is true (was false) *)
+Example qfixed_cmp_mixed_ex :
+  let a := cst (TQfixed 1 2) [false; true; false] in
+  let b := cst (TQfixed 2 2) [false; true; false; false] in
+  let z := cst (TQfixed 1 2) [false; false; false] in
+  let c := cst (TQfixed 1 2) [false; true; true] in
+  let d := cst (TQfixed 1 3) [false; true; false; false] in
+  option_map (fun r => map (beval rho0) (snd r)) (qfixed_eq a b) = Some [false]
+  /\ option_map (fun r => map (beval rho0) (snd r)) (qfixed_gt z b) = Some [false]
+  /\ option_map (fun r => map (beval rho0) (snd r)) (qfixed_gt c d) = Some [true]
+  /\ option_map (fun r => map (beval rho0) (snd r)) (qfixed_lt z b) = Some [true].
+Proof. repeat split; vm_compute; reflexivity. Qed.
 
-(* Qfixed1_2 0.5 == Qfixed2_2 2.0: the raw lists are zipped position by position *)
-Example qfixed_eq_mixed_refuted :
-  exists tl tr e, fst tl = TQfixed 1 2 /\ fst tr = TQfixed 2 2 /\ wf_te tl /\ wf_te tr
-    /\ qfixed_eq tl tr = Some (TBool, [e]) /\ beval rho0 e = true
-    /\ fxv rho0 1 (snd tl) = 2 /\ fxv rho0 2 (snd tr) = 8.
-Proof.
-  exists (cst (TQfixed 1 2) [false; true; false]), (cst (TQfixed 2 2) [false; true; false; false]).
-  eexists. repeat split; vm_compute; reflexivity.
-Qed.
+(* Qchar 'a' (97) == Qint4 1 is false (was true: zip truncated to the 4 low bits) *)
+Example qchar_eq_qint_ex :
+  option_map (fun r => map (beval rho0) (snd r)) (qchar_eq (cst TQchar (nbits 8 97)) (qint_const_e 4 1)) = Some [false]
+  /\ option_map (fun r => map (beval rho0) (snd r)) (qchar_eq (cst TQchar (nbits 8 1)) (qint_const_e 4 1)) = Some [true].
+Proof. split; vm_compute; reflexivity. Qed.
 
-(* SUSPECTED DEFECT (the one fixed in QintImp.gt is still in QfixedImp.gt):
-   Qfixed1_2 0.0 > Qfixed2_2 2.0 is true, the extra high bit of the right operand is or-ed in *)
-Example qfixed_gt_wider_right_refuted :
-  exists tl tr e, fst tl = TQfixed 1 2 /\ fst tr = TQfixed 2 2 /\ wf_te tl /\ wf_te tr
-    /\ qfixed_gt tl tr = Some (TBool, [e]) /\ beval rho0 e = true
-    /\ fxv rho0 1 (snd tl) = 0 /\ fxv rho0 2 (snd tr) = 8.
-Proof.
-  exists (cst (TQfixed 1 2) [false; false; false]), (cst (TQfixed 2 2) [false; true; false; false]).
-  eexists. repeat split; vm_compute; reflexivity.
-Qed.
-
-(* different numbers of fractional bits: the representations are aligned at their
-   least significant ends, 0.75 (Qfixed1_2) > 0.5 (Qfixed1_3) is false *)
-Example qfixed_gt_misaligned_refuted :
-  exists tl tr e, fst tl = TQfixed 1 2 /\ fst tr = TQfixed 1 3 /\ wf_te tl /\ wf_te tr
-    /\ qfixed_gt tl tr = Some (TBool, [e]) /\ beval rho0 e = false
-    /\ fxv rho0 1 (snd tl) * 2 = 6 /\ fxv rho0 1 (snd tr) = 4.   (* both scaled by 2^3 *)
-Proof.
-  exists (cst (TQfixed 1 2) [false; true; true]), (cst (TQfixed 1 3) [false; true; false; false]).
-  eexists. repeat split; vm_compute; reflexivity.
-Qed.
-
-(* Qchar 'a' (97) == Qint4 1: zip truncates to the 4 low bits *)
-Example qchar_eq_qint_refuted :
-  exists tl tr e, fst tl = TQchar /\ fst tr = TQint 4 /\ wf_te tl /\ wf_te tr
-    /\ qchar_eq tl tr = Some (TBool, [e]) /\ beval rho0 e = true
-    /\ bv rho0 (snd tl) = 97 /\ bv rho0 (snd tr) = 1.
-Proof.
-  exists (cst TQchar (nbits 8 97)), (qint_const_e 4 1).
-  eexists. repeat split; vm_compute; reflexivity.
-Qed.
+(* a pair of shapes with no common shipped type is rejected (TypeErrorException) *)
+Example qfixed_align_rejects :
+  is_shipped_qfixed 5 2 = false /\
+  qfixed_add (cst (TQfixed 5 1) (repeat false 6)) (cst (TQfixed 1 2) (repeat false 3)) = None.
+Proof. split; vm_compute; reflexivity. Qed.
 
 (* ================================================================== *)
 (* combined statements used by Prop_C01_types.v                        *)
